@@ -35,13 +35,15 @@ fn published(f: &PriceFeed) -> (u64, i64) {
     (u64::from_le_bytes(s), i64::from_le_bytes(t))
 }
 
-//@ prop=C25 tier=experimental kind=hold
+//@ prop=C25 tier=quick kind=hold
 //@ enc=PriceFeed::update, PriceFeed::price, PriceFeedPrice::{ts, price, min_price, max_price}, i64::saturating_add_unsigned
 //@ bound=none on values: every feed image with a well-formed stored price (all i64 timestamps, u64 slots, u128 prices), every 64-byte new price image, every clock (i64 now, u64 slot), every u64 max_future_excess, both modes; one step (inductive)
-//@ stubs=Clock::get returns the arbitrary clock drawn by the harness (stubs::set_clock); the head of the account (bump, provider, keys) and the reserved tail are zero (update does not read them); format!, sol_log and Display for u128/u64/i64 have empty bodies (error texts are not the subject)
+//@ stubs=Clock::get returns the arbitrary clock drawn by the harness (stubs::set_clock); the head of the account (bump, provider, keys) and the reserved tail are zero (update does not read them); format!, sol_log, CoreError::name, and Display for CoreError/u128/u64/i64 have empty bodies (error texts are not the subject)
 #[kani::proof]
 #[kani::stub(<anchor_lang::prelude::Clock as anchor_lang::prelude::SolanaSysvar>::get, crate::stubs::clock_get)]
 #[kani::stub(alloc::fmt::format, crate::stubs::fmt_format)]
+#[kani::stub(gmsol_store::CoreError::name, crate::stubs::core_error_name)]
+#[kani::stub(<gmsol_store::CoreError as std::fmt::Display>::fmt, crate::stubs::fmt_core_error)]
 #[kani::stub(<u128 as std::fmt::Display>::fmt, crate::stubs::fmt_u128)]
 #[kani::stub(<u64 as std::fmt::Display>::fmt, crate::stubs::fmt_u64)]
 #[kani::stub(<i64 as std::fmt::Display>::fmt, crate::stubs::fmt_i64)]
